@@ -366,3 +366,51 @@ def edge_dominated_correlated(fn, pos, cond_pred):
                 k2[flag[0]] = val
             st.append((t, tuple(sorted(k2.items()))))
     return True
+
+
+def tested_call_discharge(prog, fn, pred, depth=2):
+    """edge_ok for all_paths_pass: at a branch on the result of a helper call
+    ( if (h(..)) / if (!h(..)) / CHECK(h(..)) ), the edge taken for a non-zero
+    result is discharged when every path of h to a non-zero constant return
+    passes pred, and likewise for the zero edge - so `unmap on success, leave it
+    to the caller's error path on failure` is understood."""
+    memo = {}
+
+    def classes(h):
+        if h.name in memo:
+            return memo[h.name]
+        memo[h.name] = (False, False)
+        rets = {"z": set(), "nz": set()}
+        for b, i, s in h.all_stmts():
+            if s.get("k") == "ret" and "e" in s:
+                e = ir.strip(s["e"])
+                if isinstance(e, dict) and e.get("k") == "int":
+                    rets["z" if e.get("v") == 0 else "nz"].add((b.id, i))
+                else:
+                    rets["z"].add((b.id, i))
+                    rets["nz"].add((b.id, i))
+        hp = through_callees(prog, h, pred, depth)
+        out = []
+        for k in ("z", "nz"):
+            out.append(bool(rets[k]) and all_paths_pass(h, "entry", rets[k], hp)[0])
+        memo[h.name] = tuple(out)
+        return memo[h.name]
+
+    def edge_ok(blk, succ):
+        c = blk.cond_node()
+        if c is None or succ.get("label") not in ("true", "false"):
+            return False
+        c = ir.strip(c)
+        neg = False
+        while isinstance(c, dict) and c.get("k") == "un" and c.get("op") == "!":
+            neg = not neg
+            c = ir.strip(c["e"])
+        if not (isinstance(c, dict) and c.get("k") == "call" and c.get("fn")):
+            return False
+        h = prog.resolve(c["fn"], fn)
+        if h is None or h is fn or not h.blocks:
+            return False
+        z_ok, nz_ok = classes(h)
+        nonzero_edge = (succ["label"] == "true") != neg
+        return nz_ok if nonzero_edge else z_ok
+    return edge_ok
